@@ -11,6 +11,7 @@ def handle (line : String) : String :=
       match op with
       | "hash" => Drv.opHash j
       | "auth" => Drv.opAuth j
+      | "overlap" => Drv.opOverlap j
       | "argctx" => Drv.opArgCtx j
       | "leafsig" => Drv.opLeafSig j
       | _ => .error s!"unknown op {op}"
